@@ -61,21 +61,67 @@ type cacheIn struct {
 	tmpl *plush.Template
 }
 
+// cacheState: the template currently cached for one text (nil: none) and
+// every template identity the history has shown so far for that text.
+type cacheState struct {
+	cur  *plush.Template
+	seen []*plush.Template
+}
+
+func (s cacheState) has(t *plush.Template) bool {
+	for _, x := range s.seen {
+		if x == t {
+			return true
+		}
+	}
+	return false
+}
+
+func (s cacheState) with(t *plush.Template) cacheState {
+	if s.has(t) {
+		return cacheState{cur: t, seen: s.seen}
+	}
+	return cacheState{cur: t, seen: append(append([]*plush.Template{}, s.seen...), t)}
+}
+
+// cacheModel: the cache as a map text -> template with get-or-insert (Parse)
+// and put (CacheSet). Eviction is allowed at any time (a bounded cache is
+// fine): a Parse may always come back with a template nobody has seen before.
+// What is not allowed is a STALE answer: a template that had already been
+// replaced (by a completed CacheSet or a later insert) being handed out, or
+// found in the cache, again.
 var cacheModel = porcupine.Model{
-	Init: func() interface{} { return (*plush.Template)(nil) },
+	Init: func() interface{} { return cacheState{} },
 	Step: func(state, input, output interface{}) (bool, interface{}) {
-		st := state.(*plush.Template)
+		st := state.(cacheState)
 		in := input.(cacheIn)
 		if in.set {
-			return true, in.tmpl
+			return true, st.with(in.tmpl)
 		}
 		out := output.(*plush.Template)
-		if st == nil {
-			return out != nil, out // miss: the returned template is the one inserted
+		if out == nil {
+			return false, st
 		}
-		return out == st, st // hit: must hand out the cached template
+		if out == st.cur {
+			return true, st // hit
+		}
+		if !st.has(out) {
+			return true, st.with(out) // miss (never cached, or evicted): parsed anew and inserted
+		}
+		return false, st // an identity seen before that is not the current one: stale
 	},
-	Equal: func(a, b interface{}) bool { return a.(*plush.Template) == b.(*plush.Template) },
+	Equal: func(a, b interface{}) bool {
+		x, y := a.(cacheState), b.(cacheState)
+		if x.cur != y.cur || len(x.seen) != len(y.seen) {
+			return false
+		}
+		for i := range x.seen {
+			if !y.has(x.seen[i]) {
+				return false
+			}
+		}
+		return true
+	},
 }
 
 func c14ExecRun(t *rapid.T) {
@@ -94,7 +140,7 @@ func c14ExecRun(t *rapid.T) {
 	}
 	var progs []*Program
 	for i := 0; i < nprog; i++ {
-		progs = append(progs, genProgram(t, genOpts{probes: true, mapRegions: true, pureMapBody: true, sideEffects: true, failing: true, failPct: 10, probePct: 15, maxPieces: 4, maxDepth: 2}))
+		progs = append(progs, genProgram(t, genOpts{probes: true, mapRegions: true, pureMapBody: true, sideEffects: true, failing: true, failPct: 10, probePct: 15, maxPieces: 4, maxDepth: 2, litModePct: 24}))
 	}
 	cacheOn := scenario == 3 || rapid.Bool().Draw(t, "cache")
 	warm := uni(t, "warm", 3) // 0 cold, 1 some, 2 all
@@ -243,6 +289,34 @@ func c14ExecRun(t *rapid.T) {
 	initialCache := map[string]*plush.Template{}
 	if cacheOn {
 		initialCache = plush.VerifCachedTemplates()
+	}
+	if scenario == 3 && cacheOn {
+		// a crowded cache (bounded caches, eviction while others render) and a
+		// task that keeps inserting new templates during the run
+		crowd := []int{0, 0, 30, 100, 600}[uni(t, "crowd", 5)]
+		for x := 0; x < crowd; x++ {
+			_, _ = plush.Parse(fmt.Sprintf("crowd %d <%%= %d %%>", x, x))
+		}
+		if crowd > 0 {
+			count("c14_s3_crowded_cache_runs", 1)
+			nf := 1 + uni(t, "nfillers", 8)
+			fillerBad := ""
+			sim.Go("F", func() {
+				for n := 0; n < nf; n++ {
+					out, err := safeRender(fmt.Sprintf("late filler %d <%%= %d %%>", n, n), plush.NewContext())
+					if err != nil || out != fmt.Sprintf("late filler %d %d", n, n) {
+						fillerBad = fmt.Sprintf("filler %d rendered %q, %v", n, out, err)
+					}
+				}
+			})
+			defer func() {
+				if fillerBad != "" {
+					violate(t, "C14", "concurrent-execution-equals-execution-alone", "result-differs:S3-filler", func() map[string]interface{} {
+						return map[string]interface{}{"message": fillerBad}
+					})
+				}
+			}()
+		}
 	}
 	if scenario == 2 && rapid.Bool().Draw(t, "parentwriter") {
 		// somebody keeps Setting (keys no template reads) on the shared
@@ -452,7 +526,7 @@ func c14ExecRun(t *rapid.T) {
 			count("c14_s3_cache_history_ops", int64(len(ops)))
 			switch porcupine.CheckOperationsTimeout(model, ops, 10*time.Second) {
 			case porcupine.Illegal:
-				violate(t, "C14", "cache-ops-linearizable", "linearizability:cache", details("Parse (get-or-insert) / CacheSet (put) history on the template cache is not linearizable: a cached or explicitly set template was replaced behind the back of a completed operation"))
+				violate(t, "C14", "cache-ops-linearizable", "linearizability:cache", details("Parse (get-or-insert) / CacheSet (put) history on the template cache is not linearizable even allowing evictions: a template that had already been replaced was handed out, or left in the cache, again (stale entry / lost CacheSet)"))
 				return
 			case porcupine.Unknown:
 				count("c14_s3_linearizability_unknown", 1)
